@@ -13,8 +13,8 @@ ID = "C14"
 COQ_IMPORT = "Corr.CNodes"
 COQ_CASE_TYPE = "g_case"
 COQ_CHECK = "g_check"
-THEOREMS = ["c14_annotations_survive_file", "c14_conv1d_regain", "c14_conv2d_regain", "c14_conv2d_regain_after_file", "c14_constructors_respect_similarity", "c14_round_trip_values_are_similar", "c14_conv_arithmetic_respects_similarity", "c14_inference_changes_only_annotations"]
-PROOF_FILES = ["Proofs/LayoutProofs.v", "Proofs/SimProofs.v", "Proofs/SerialProofs.v", "Proofs/InferProofs.v"]
+THEOREMS = ["c14_annotations_survive_file", "c14_conv1d_regain", "c14_conv2d_regain", "c14_conv2d_regain_after_file", "c14_constructors_respect_similarity", "c14_round_trip_values_are_similar", "c14_conv_arithmetic_respects_similarity", "c14_inference_changes_only_annotations", "c14_infer_commutes_with_file", "c14_infer_commutes_with_dict", "c14_infer_respects_relation", "c14_check_respects_relation"]
+PROOF_FILES = ["Proofs/InferSimProofs.v", "Proofs/LayoutProofs.v", "Proofs/SimProofs.v", "Proofs/RoundTripProofs.v", "Proofs/SerialProofs.v", "Proofs/InferProofs.v"]
 RULE = ("the C08 generator of consistent graphs (with and without erased annotations); histories over "
         "{infer_types, write+read, to_dict+from_dict} of length <= 4: all 3^k interleavings for k <= 3 on a sample of "
         "graphs in the thorough tier, random ones in quick; after the history one more infer_types(); every node's types "
@@ -31,7 +31,7 @@ def gen(rng, tier):
     N = 110 if tier == "quick" else 900
     for _ in range(N):
         cg = G.consistent_graph(rng, max_nodes=rng.choice([3, 6, 10]))
-        if rng.random() < 0.6:
+        if rng.random() < 0.6 or "gconv" in cg["erasable"].values():
             r, done = G.erase(rng, cg, wrong_outputs=False)
         else:
             r, done = cg["recipe"], []
@@ -101,7 +101,13 @@ def run(c):
                 # what the file carries is back without inference
                 for k, n in g.nodes.items():
                     if type(n).__name__ in ("Conv1d", "Conv2d", "Flatten", "Input", "Output"):
-                        if (tval(n.input_type, "input"), tval(n.output_type, "output")) != t_ref[k]:
+                        got = (tval(n.input_type, "input"), tval(n.output_type, "output"))
+                        want = t_ref[k]
+                        if type(n).__name__ in ("Conv1d", "Conv2d") and getattr(n, "groups", 1) != 1 and isinstance(got[0], list) and isinstance(want[0], list):
+                            # grouped convolution: the constructor declares C_in/groups channels; what the file carries is
+                            # the spatial annotation (and the output type)
+                            got, want = (got[0][1:], got[1]), (want[0][1:], want[1])
+                        if got != want:
                             fail = (f"after {done}: annotation of {k} ({type(n).__name__}) not regained from the "
                                     f"serialised form: {n.input_type} -> {n.output_type}, inferred graph had {t_ref[k]}")
                             break
